@@ -938,6 +938,7 @@ def run(chk):
     from tensorly.cp_tensor import CPTensor, cp_normalize, cp_flip_sign, cp_permute_factors, cp_mode_dot, cp_to_tensor
     quick = chk.tier == "quick"
     mult = 1 if quick else 8
+    n_cp = 110 if quick else 1200          # quick: sample sizes trimmed in round 6 (CPU budget); thorough keeps the former 8 x 150
     cases, meta = [], []
 
     def add_case(body, descr):
@@ -975,7 +976,7 @@ def run(chk):
             chk.hist("corpus", os.path.basename(fn))
 
     # --- (1) cp_to_tensor, cp_flip_sign, cp_mode_dot on integer CP tensors (exact)
-    for it in range(150 * mult):
+    for it in range(n_cp):
         w, fs, feat = gen_cp(rng)
         N, R = len(fs), len(w)
         st, out = call(cp_to_tensor, CPTensor((w.copy(), cps(fs))))
@@ -1310,7 +1311,7 @@ def run_other_formats(chk, rng, judge, mult, emit):
                      ("tucker_normalize", sh(fs), feat))
         judge("tucker_normalize", {"core": core, "fs": fs}, (sh(fs), feat))
     # --- tucker_to_tensor, tucker_mode_dot (exact)
-    for it in range(60 * mult):
+    for it in range(45 * mult if mult == 1 else 60 * mult):
         core, fs, feat = gen_tucker(rng)
         N = len(fs)
         st, out = call(tucker_to_tensor, TuckerTensor((core.copy(), cps(fs))))
